@@ -24,6 +24,46 @@ pub fn run(key: &str, a: &[String]) -> String {
                 Some(SinceMetric::Timestamp(t)) => format!("1 2 {t}"),
             }
         }
+        "inibd_count_extra_fields" => {
+            // bytes of an InIBD message accepted by from_compatible_slice; then the generated accessor
+            use ckb_types::{packed, prelude::*};
+            let bytes: Vec<u8> = a.iter().map(|x| u(x) as u8).collect();
+            match packed::InIBDReader::from_compatible_slice(&bytes) {
+                Ok(r) => format!("1 {}", r.count_extra_fields()),
+                Err(_) => "0 0".to_string(),
+            }
+        }
+        "compact_block_extension" => {
+            // a default CompactBlock re-encoded with ONE extra field holding the given raw bytes
+            use ckb_types::{packed, prelude::*};
+            let extra: Vec<u8> = a.iter().map(|x| u(x) as u8).collect();
+            let base = packed::CompactBlock::default();
+            let s = base.as_slice();
+            let n = packed::CompactBlock::FIELD_COUNT;
+            let mut offsets: Vec<u32> = (0..n).map(|i| u32::from_le_bytes([s[4 + 4 * i], s[5 + 4 * i], s[6 + 4 * i], s[7 + 4 * i]])).collect();
+            let old_header = 4 * (n + 1);
+            let body = &s[old_header..];
+            for o in offsets.iter_mut() {
+                *o += 4;
+            }
+            let extra_off = (s.len() + 4) as u32;
+            let total = (s.len() + 4 + extra.len()) as u32;
+            let mut out = total.to_le_bytes().to_vec();
+            for o in &offsets {
+                out.extend_from_slice(&o.to_le_bytes());
+            }
+            out.extend_from_slice(&extra_off.to_le_bytes());
+            out.extend_from_slice(body);
+            out.extend_from_slice(&extra);
+            match packed::CompactBlockReader::from_compatible_slice(&out) {
+                Ok(r) => {
+                    let cnt = r.count_extra_fields();
+                    let e = r.to_entity().extension();
+                    format!("1 {} {}", cnt, e.map(|b| b.len()).unwrap_or(0))
+                }
+                Err(_) => "0 0 0".to_string(),
+            }
+        }
         "since_flags" => {
             use ckb_verification::Since;
             let s = Since(u(&a[0]));
